@@ -56,15 +56,32 @@ func (ex *Exec) get(st *State, name, sort string) *Term {
 	return ex.initialComp(name, sort)
 }
 
-func (ex *Exec) set(st *State, name string, t *Term) {
+func (ex *Exec) setAt(st *State, name string, t *Term, ref *Term) {
 	compSorts[name] = t.sort
 	st.comp[name] = t
-	ex.noteWrite(name)
+	ex.noteWriteAt(name, ref)
 }
 
-func (ex *Exec) noteWrite(name string) {
-	for _, w := range ex.wstack {
-		w[name] = true
+// noteWriteAt records a write to component name at object ref (nil: anywhere) for loop probes.
+func (ex *Exec) noteWriteAt(name string, ref *Term) {
+	ex.written[name] = true
+	for _, w := range ex.wlogs {
+		if ref == nil {
+			w.whole[name] = true
+			continue
+		}
+		m := w.refs[name]
+		if m == nil {
+			m = map[int]*Term{}
+			w.refs[name] = m
+		}
+		m[ref.id] = ref
+	}
+}
+
+func (ex *Exec) noteExtra(key string) {
+	for _, w := range ex.wlogs {
+		w.extra[key] = true
 	}
 }
 
@@ -78,7 +95,7 @@ func (ex *Exec) havocComp(st *State, name string) {
 	nowOf[v.id] = st.now
 	old := ex.get(st, name, sort)
 	st.comp[name] = v
-	ex.noteWrite(name)
+	ex.noteWriteAt(name, nil)
 	// immutable objects keep their content
 	for _, im := range ex.immutable[name] {
 		ex.pendingAssume = append(ex.pendingAssume, Eq(Select(v, im), Select(old, im)))
@@ -297,7 +314,7 @@ func (ex *Exec) storeField(st *State, owner types.Type, i int, base *Term, v Val
 	fs := flat(v)
 	for k, l := range leaves(ft) {
 		n, s := fieldComp(owner, i, l)
-		ex.set(st, n, Store(ex.get(st, n, s), base, fs[k]))
+		ex.setAt(st, n, Store(ex.get(st, n, s), base, fs[k]), base)
 	}
 }
 
@@ -320,7 +337,7 @@ func (ex *Exec) storeElem(st *State, et types.Type, arr, idx *Term, v Val) {
 	for k, l := range leaves(et) {
 		n, s := elemComp(et, l)
 		c := ex.get(st, n, s)
-		ex.set(st, n, Store(c, arr, Store(Select(c, arr), idx, fs[k])))
+		ex.setAt(st, n, Store(c, arr, Store(Select(c, arr), idx, fs[k])), arr)
 	}
 }
 
@@ -367,14 +384,14 @@ func (ex *Exec) storeAt(st *State, t types.Type, ref *Term, v Val) {
 		av := v.(*ArrV)
 		for k, l := range leaves(u.Elem()) {
 			n, s := elemComp(u.Elem(), l)
-			ex.set(st, n, Store(ex.get(st, n, s), ref, av.A[k]))
+			ex.setAt(st, n, Store(ex.get(st, n, s), ref, av.A[k]), ref)
 		}
 		return
 	}
 	fs := flat(v)
 	for k, l := range leaves(t) {
 		n, s := cellComp(t, l)
-		ex.set(st, n, Store(ex.get(st, n, s), ref, fs[k]))
+		ex.setAt(st, n, Store(ex.get(st, n, s), ref, fs[k]), ref)
 	}
 }
 
@@ -441,7 +458,7 @@ func (ex *Exec) storeGlobal(st *State, gname string, t types.Type, v Val) {
 	}
 	fs := flat(v)
 	for k, l := range leaves(t) {
-		ex.set(st, gname+l.path, fs[k])
+		ex.setAt(st, gname+l.path, fs[k], nil)
 	}
 }
 
@@ -498,6 +515,20 @@ func (ex *Exec) alloc(st *State, hint string) *Term {
 		ex.pendingAssume = append(ex.pendingAssume, Eq(birth(r), st.now), Eq(App("kind", SInt, r), IntLit(0)), Neq(r, Null))
 	}
 	st.now = IntOp("+", st.now, IntLit(1))
+	// ghost state of a new object starts at its zero value
+	for _, g := range ex.P.cs.Ghosts {
+		if g.Immutable || g.Ret == "seq" {
+			continue
+		}
+		func() {
+			defer func() { recover() }()
+			for _, l := range leaves(ex.resolveType(g.Ret, g.Pkg)) {
+				n, s := "ghost:"+g.Name+l.path, ArrSort(SRef, l.sort)
+				st.comp[n] = Store(ex.get(st, n, s), r, zeroOfSort(l.sort))
+				compSorts[n] = s
+			}
+		}()
+	}
 	return r
 }
 
